@@ -15,4 +15,6 @@ CONSTANTS
   Cards = {100, 320, 211}
   WithCut = TRUE
   WithFormat = TRUE
+  WithOutage = TRUE
+  Retries = 2
 CHECK_DEADLOCK FALSE
